@@ -135,43 +135,67 @@ func isXRange(c string) bool {
 	return strings.ContainsAny(core, "xX")
 }
 
-// parseCaretRange handles caret ranges (^1.2.3)
-func parseCaretRange(version string) ([]*constraint, error) {
+// parsePartialVersion parses a version of which the minor and patch parts may
+// be missing ("1", "1.2", "1.2.3-beta"). It returns the version with missing
+// parts set to 0 and the number of parts that were given.
+func parsePartialVersion(version string) (*Version, int, error) {
 	e := &Ecosystem{}
+	parts := strings.Split(strings.TrimPrefix(version, "v"), ".")
+	if len(parts) < 3 {
+		for _, part := range parts {
+			if part == "" || strings.Trim(part, "0123456789") != "" {
+				return nil, 0, fmt.Errorf("invalid NPM version: %s", version)
+			}
+		}
+		v, err := e.NewVersion(version + strings.Repeat(".0", 3-len(parts)))
+		return v, len(parts), err
+	}
 	v, err := e.NewVersion(version)
+	return v, 3, err
+}
+
+// parseCaretRange handles caret ranges (^1.2.3, ^1.2, ^1)
+func parseCaretRange(version string) ([]*constraint, error) {
+	v, given, err := parsePartialVersion(version)
 	if err != nil {
 		return nil, err
 	}
 
-	// Special rules for caret ranges with zero versions
-	if v.major == 0 {
-		if v.minor == 0 {
-			// ^0.0.3 means >=0.0.3 <0.0.4 (only patch changes)
-			return []*constraint{
-				{operator: ">=", version: v.normalize()},
-				{operator: "<", version: fmt.Sprintf("0.0.%d", v.patch+1)},
-			}, nil
-		}
-		// ^0.2.3 means >=0.2.3 <0.3.0-0 (patch and minor changes, excludes prereleases from next minor)
-		return []*constraint{
-			{operator: ">=", version: v.normalize()},
-			{operator: "<", version: fmt.Sprintf("0.%d.0-0", v.minor+1)},
-		}, nil
+	// The caret allows changes that do not modify the left-most non-zero part
+	// (or, when all given parts are zero, the last given part). The upper bound
+	// excludes prereleases of the next version ("-0").
+	var upper string
+	switch {
+	case v.major != 0 || given == 1:
+		// ^1.2.3 means >=1.2.3 <2.0.0-0
+		upper = fmt.Sprintf("%d.0.0-0", v.major+1)
+	case v.minor != 0 || given == 2:
+		// ^0.2.3 means >=0.2.3 <0.3.0-0
+		upper = fmt.Sprintf("0.%d.0-0", v.minor+1)
+	default:
+		// ^0.0.3 means >=0.0.3 <0.0.4-0 (only patch changes)
+		upper = fmt.Sprintf("0.0.%d-0", v.patch+1)
 	}
 
-	// ^1.2.3 means >=1.2.3 <2.0.0-0 (excludes prereleases from next major)
 	return []*constraint{
 		{operator: ">=", version: v.normalize()},
-		{operator: "<", version: fmt.Sprintf("%d.0.0-0", v.major+1)},
+		{operator: "<", version: upper},
 	}, nil
 }
 
-// parseTildeRange handles tilde ranges (~1.2.3)
+// parseTildeRange handles tilde ranges (~1.2.3, ~1.2, ~1)
 func parseTildeRange(version string) ([]*constraint, error) {
-	e := &Ecosystem{}
-	v, err := e.NewVersion(version)
+	v, given, err := parsePartialVersion(version)
 	if err != nil {
 		return nil, err
+	}
+
+	// ~1 means >=1.0.0 <2.0.0-0
+	if given == 1 {
+		return []*constraint{
+			{operator: ">=", version: v.normalize()},
+			{operator: "<", version: fmt.Sprintf("%d.0.0-0", v.major+1)},
+		}, nil
 	}
 
 	// ~1.2.3 means >=1.2.3 <1.3.0-0 (excludes prereleases from next minor)
@@ -231,19 +255,28 @@ func parseHyphenRange(rangeStr string) ([]*constraint, error) {
 		return nil, fmt.Errorf("invalid hyphen range: %s", rangeStr)
 	}
 
-	// Validate that both parts are valid versions
-	e := &Ecosystem{}
-	if _, err := e.NewVersion(start); err != nil {
+	// Validate that both parts are valid (possibly partial) versions
+	startVersion, _, err := parsePartialVersion(start)
+	if err != nil {
 		return nil, fmt.Errorf("invalid start version in hyphen range: %s", start)
 	}
-	if _, err := e.NewVersion(end); err != nil {
+	endVersion, endGiven, err := parsePartialVersion(end)
+	if err != nil {
 		return nil, fmt.Errorf("invalid end version in hyphen range: %s", end)
 	}
 
-	return []*constraint{
-		{operator: ">=", version: start},
-		{operator: "<=", version: end},
-	}, nil
+	// A partial start version is filled with zeros (1.2 - 2.3.4 means >=1.2.0 <=2.3.4)
+	lower := &constraint{operator: ">=", version: startVersion.normalize()}
+
+	// A partial end version includes everything that starts with the given parts
+	// (1.2.3 - 2.3 means >=1.2.3 <2.4.0-0, 1.2.3 - 2 means >=1.2.3 <3.0.0-0)
+	switch endGiven {
+	case 1:
+		return []*constraint{lower, {operator: "<", version: fmt.Sprintf("%d.0.0-0", endVersion.major+1)}}, nil
+	case 2:
+		return []*constraint{lower, {operator: "<", version: fmt.Sprintf("%d.%d.0-0", endVersion.major, endVersion.minor+1)}}, nil
+	}
+	return []*constraint{lower, {operator: "<=", version: end}}, nil
 }
 
 // parseSpaceSeparatedConstraints handles space-separated constraints (>=1.0.0 <2.0.0)
